@@ -5,6 +5,7 @@ import importlib
 import json
 import os
 import random
+import sys
 import time
 import traceback
 import typing as t
@@ -170,6 +171,60 @@ def pred_sweep(ctx: Ctx) -> t.Optional[dict]:
     return None
 
 
+ENV_VARIANTS = [
+    ("TZ=Pacific/Kiritimati", {"TZ": "Pacific/Kiritimati"}),      # UTC+14
+    ("TZ=America/Adak", {"TZ": "America/Adak"}),                  # UTC-10 with DST
+    ("python -O", {"PYTHONOPTIMIZE": "1"}),                       # assert statements removed
+    ("PYTHONHASHSEED=12345", {"PYTHONHASHSEED": "12345"}),
+]
+
+
+def run_env_matrix(ctx: Ctx) -> None:
+    """Process-global state must not matter: a sample of this run's cases (units with a property predicate) is run again in child processes
+    started with another time zone, with -O, with another hash seed; an output that differs from the in-process one is judged by the
+    predicate (failing input) or reported as an unexplained dependence on the environment."""
+    import subprocess
+
+    per_unit = 12 if not ctx.thorough else 60
+    variants = ENV_VARIANTS if ctx.thorough else ENV_VARIANTS[:3]
+    n_run = 0
+    for name, (u, pairs) in ctx.impl_outputs.items():
+        if not pairs:
+            continue
+        idx = sorted(set(list(range(min(4, len(pairs)))) + [ctx.rng.randrange(len(pairs)) for _ in range(per_unit)]))[:per_unit]
+        sample = [pairs[i] for i in idx]
+        data = "".join(enc(c) + "\n" for c, _ in sample).encode()
+        for label, envadd in variants:
+            env = dict(os.environ)
+            env.update(envadd)
+            env["PYTHONPATH"] = core.VERIF + os.pathsep + env.get("PYTHONPATH", "")
+            try:
+                p = subprocess.run([sys.executable, "-m", "vlib.envrun", ctx.prop, name], input=data, stdout=subprocess.PIPE, stderr=subprocess.PIPE,
+                                   env=env, cwd=core.VERIF, timeout=300)
+                outs = p.stdout.decode(errors="replace").split("\n")[: len(sample)]
+            except subprocess.TimeoutExpired:
+                outs = []
+            if len(outs) < len(sample):
+                ctx.notes.append(f"env matrix: {name} under {label}: child produced {len(outs)} of {len(sample)} outputs")
+                continue
+            n_run += len(sample)
+            for (c, i0), i1 in zip(sample, outs):
+                if _model_bucket(u, i0) == _model_bucket(u, i1):
+                    continue
+                try:
+                    why = u.prop_pred(c, dec(i1) if not i1.startswith("!") else None)
+                except Exception as exc:  # noqa: BLE001
+                    why = None
+                    ctx.notes.append(f"env matrix: predicate of {name} raised {type(exc).__name__}")
+                kind = "failing-input" if why else "no-failing-input-found"
+                ctx.violation(kind, f"environment:{name}",
+                              {"unit": name, "model_unit": u.model_unit, "input": enc(c), "environment": label, "observed_in_process": i0[:1000],
+                               "observed_impl": i1[:1000], "why": (why or "the output depends on the process environment") + f" (under {label})"},
+                              key=f"env:{name}:{label}")
+                break
+    ctx.extra["env_matrix_cases"] = n_run
+
+
 def run_flow_semantics(ctx: Ctx) -> None:
     """Properties that rest on flow tie theorems also validate the semantics those theorems are stated in: the functions of
     vlib/pysem_src.py run as regenerated flows in the extracted interpreter (standard world, empty extension) and in CPython."""
@@ -310,6 +365,7 @@ def run_check(prop: str, tier: str, seed: int) -> int:
         if not ctx.extra.get("model_build_failed"):
             units = mod.units(ctx)
             run_units(ctx, units)
+            run_env_matrix(ctx)
             run_flow_semantics(ctx)
             if hasattr(mod, "oracles"):
                 mod.oracles(ctx)
